@@ -10,6 +10,8 @@ INVARIANT Inv_Interval
 INVARIANT Inv_Rpcs
 INVARIANT Inv_Svcs
 INVARIANT Inv_Internal
+INVARIANT Inv_InternalStillWorks
+INVARIANT Inv_Behave
 INVARIANT Inv_Files
 POSTCONDITION Accepted
 CHECK_DEADLOCK FALSE
